@@ -19,7 +19,7 @@ func keyShareForms() []string {
 	return []string{
 		"k = [1]; for 2 { k = {[k] * 100: 1} }; big = [k] * 100000; m = {big: 1}; len(m)",
 		"k = 1; for 14 { k = {[k, k]: 1} }; big = [k] * 1000000; big == big",
-		"k = 1; for 8 { k = {[k, k, k]: k} }; big = [k] * 300000; b2 = [k] * 300000; big < b2",
+		"k = 1; for 8 { k = {[k, k, k]: k} }; big = [k] * 100000; b2 = [k] * 100000; big < b2",
 		"k = \"x\"; for 7 { k = {{1: k, 2: k, 3: k, 4: k}: 1} }; big = [k] * 1000000; len(str(big))",
 		"k = [1]; for 2 { k = {\"a\": 1, [k] * 100: 2} }; big = [[k] * 1000] * 1000; len(json(big))",
 		"k = 1; for 3 { k = {{[k] * 30: 0}: \"v\"} }; big = [k] * 500000; len(sprintf(\"%v\", big))",
@@ -166,7 +166,7 @@ func genKeyShare(t *rapid.T) Case {
 
 // TestKeySharing: the generated part of the key-sharing growth family (the deterministic part is in TestGrowthForms).
 func TestKeySharing(t *testing.T) {
-	pbt.Check(t, 8, 300, func(rt *rapid.T) {
+	pbt.Check(t, 6, 300, func(rt *rapid.T) {
 		c := genKeyShare(rt)
 		o, err := check(c)
 		if err != nil {
